@@ -28,6 +28,11 @@ package queueing
 //@ func recSlot(p, i, base) = (p.stages[i].Stage - base) * p.width + p.stages[i].Lane
 //@ pred lanesOK(p) = forall i in 0..len(p.stages) :: 0 <= p.stages[i].Lane && p.stages[i].Lane < p.width
 
+// c15OccComplete: a spec switch that is never assigned. The completeness half of the occupancy table (a set slot is held by
+// a record, witness `own`) is PROVED for buildOccupancy whatever its value, but it is handed to callers only under the switch:
+// stated unconditionally, the inverse pair occSound/occOwned sends every solver into a matching loop in advanceItems
+// (index-safety there: cvc5 2 s without it, > 60 s with it).
+//@ ghost var c15OccComplete bool
 //@ fn (*Pipeline[T]).buildOccupancy
 //@   property C15
 //@   requires 0 < p.width && p.width <= 1<<30 && 0 <= maxStage - minStage && maxStage - minStage <= 1<<30 && minStage >= 0 && maxStage <= 1<<30
@@ -42,7 +47,7 @@ package queueing
 //@   label C15.occ.sound
 //@   ensures occSound(p, result, off)
 //@   label C15.occ.complete
-//@   ensures occOwned(p, result, off, own)
+//@   ensures c15OccComplete ==> occOwned(p, result, off, own)
 //@   assigns nothing
 //@   loop 0: invariant -1 <= rangeindex && rangeindex < len(occ) && len(occ) == occSlots && fresh(occ) && occSlots == (maxStage - minStage + 2) * p.width
 //@   loop 0: invariant forall k in 0..rangeindex + 1 :: !occ[k]
@@ -174,15 +179,15 @@ package queueing
 // injective by linear reasoning only. slotG(j) = slot of record j.
 //@ func slotG(p, goff, j) = goff[p.stages[j].Stage] + p.stages[j].Lane
 //@ pred goffStep(goff, w, lo, hi) = forall s in lo..hi :: goff[s + 1] == goff[s] + w
-//@ pred goffMono(goff, w, lo, hi) = forall a in lo..hi :: forall b in lo..hi :: a < b ==> goff[a] + w <= goff[b]
+//@ pred goffMono(goff, w, lo, hi) = forall a int, b int :: lo <= a && a < b && b < hi ==> goff[a] + w <= goff[b]
+// the same for the records against the row of the stage being scanned (single bound variable), and lane/stage distinctness as ONE
+// two-variable quantifier (the nested form of distinctOK instantiates in two steps)
+//@ pred rowSep(p, goff, stage) = forall j in 0..len(p.stages) :: (p.stages[j].Stage < stage ==> goff[p.stages[j].Stage] + p.width <= goff[stage]) && (p.stages[j].Stage > stage ==> goff[stage] + p.width <= goff[p.stages[j].Stage])
+//@ pred distinctFlat(p) = forall a int, b int :: 0 <= a && a < len(p.stages) && 0 <= b && b < len(p.stages) && a != b ==> !(p.stages[a].Lane == p.stages[b].Lane && p.stages[a].Stage == p.stages[b].Stage)
 // the occupancy table is exact: every record's slot is set (occSound); a set slot k is held by record own[k] (occOwned)
 //@ pred occSound(p, occ, goff) = forall j in 0..len(p.stages) :: occ[slotG(p, goff, j)]
 //@ pred occOwned(p, occ, goff, own) = forall k in 0..len(occ) :: occ[k] ==> 0 <= own[k] && own[k] < len(p.stages) && slotG(p, goff, own[k]) == k
 // record j is exactly as it was on entry / has taken its step (dwell counter down by one, or at most one stage up)
-// owner map inside the record scan: the outer loop's ghost before the first iteration, the scan's own ghost afterwards
-// (an inner loop's ghost cannot be initialised from an outer loop's ghost: the engine's write-set discovery pass runs the
-// outer body before the outer ghosts exist)
-//@ func ownAt(i, g0, g1) = (i == 0 ? g0 : g1)
 //@ pred recSame(p, j) = p.stages[j].Stage == old(p.stages)[j].Stage && p.stages[j].CycleLeft == old(p.stages)[j].CycleLeft
 //@ pred recDone(p, j) = (old(p.stages)[j].CycleLeft > 0 ==> p.stages[j].Stage == old(p.stages)[j].Stage && p.stages[j].CycleLeft == old(p.stages)[j].CycleLeft - 1) && (old(p.stages)[j].CycleLeft == 0 ==> p.stages[j].CycleLeft == 0 && (p.stages[j].Stage == old(p.stages)[j].Stage || p.stages[j].Stage == old(p.stages)[j].Stage + 1))
 //@ pred recKeep(p) = forall j in 0..len(p.stages) :: p.stages[j].Lane == old(p.stages)[j].Lane && p.stages[j].Item == old(p.stages)[j].Item
@@ -190,9 +195,6 @@ package queueing
 //@ pred stagesIn(p, lo, hi) = forall j in 0..len(p.stages) :: lo <= p.stages[j].Stage && p.stages[j].Stage <= hi
 //@ pred advRange(p, lo, hi) = forall j in 0..len(p.stages) :: lo <= old(p.stages)[j].Stage && (old(p.stages)[j].Stage <= hi || old(p.stages)[j].Stage == p.numStages - 1)
 // hypothesis of the progress clause: dwell cycles only at stage 0, and nothing is waiting at the last stage (the sink took it)
-// a ground consequence of advHyp (its instance for record 0): the owner map of the occupancy table, which only the progress
-// clause needs, is kept under this guard so that the other obligations are not slowed down by it
-//@ pred advGuard(p) = old(p.stages)[0].Stage < p.numStages - 1
 //@ pred advHyp(p) = old(dwellOK(p)) && (forall j in 0..old(len(p.stages)) :: old(p.stages)[j].Stage < p.numStages - 1)
 
 //@ fn (*Pipeline[T]).advanceItems
@@ -214,9 +216,7 @@ package queueing
 //@   ensures advHyp(p) ==> (forall j in 0..len(p.stages) :: old(p.stages)[j].CycleLeft == 0 ==> p.stages[j].Stage == old(p.stages)[j].Stage + 1)
 //@   assigns elems(p.stages)
 //@   loop 0: ghost goff = buildOccupancy_off
-//@   loop 0: ghost gown0 = buildOccupancy_own
 //@   loop 0: backedge goff = goff
-//@   loop 0: backedge gown0 = gown1
 //@   loop 0: invariant minStage - 1 <= stage && stage <= maxStage && maxStage <= lastStage - 1 && lastStage == p.numStages - 1 && occBase == minStage && 0 <= minStage && n == len(p.stages)
 //@   loop 0: invariant advFrame(p) && fresh(occ)
 //@   loop 0: invariant goffStep(goff, p.width, minStage - 1, maxStage + 3)
@@ -224,21 +224,19 @@ package queueing
 //@   loop 0: invariant goff[minStage] == 0 && len(occ) == goff[maxStage + 3] && goff[stage + 1] == (stage + 1 - occBase) * p.width && 0 <= goff[stage + 1] && goff[stage + 1] + p.width <= len(occ)
 //@   loop 0: invariant recsOK(p) && stagesIn(p, minStage, maxStage + 1) && advRange(p, minStage, maxStage)
 //@   loop 0: invariant distinctOK(p)
+//@   loop 0: invariant distinctFlat(p)
 //@   loop 0: invariant occSound(p, occ, goff)
-//@   loop 0: invariant advGuard(p) ==> occOwned(p, occ, goff, gown0)
 //@   loop 0: invariant recKeep(p)
 //@   loop 0: invariant forall j in 0..len(p.stages) :: old(p.stages)[j].Stage <= stage || old(p.stages)[j].Stage > maxStage ==> recSame(p, j)
 //@   loop 0: invariant forall j in 0..len(p.stages) :: stage < old(p.stages)[j].Stage && old(p.stages)[j].Stage <= maxStage ==> recDone(p, j)
 //@   loop 0: invariant advHyp(p) ==> (forall j in 0..len(p.stages) :: stage < old(p.stages)[j].Stage && old(p.stages)[j].CycleLeft == 0 ==> p.stages[j].Stage == old(p.stages)[j].Stage + 1)
-//@   loop 1: ghost gown1 = idperm
-//@   loop 1: backedge gown1 = (p.stages[athead(i)].Stage == athead(p.stages[i].Stage) ? ownAt(athead(i), gown0, gown1) : upd(ownAt(athead(i), gown0, gown1), goff[stage + 1] + p.stages[athead(i)].Lane, athead(i)))
 //@   loop 1: invariant minStage <= stage && stage <= maxStage && maxStage <= lastStage - 1 && lastStage == p.numStages - 1 && occBase == minStage && 0 <= minStage && n == len(p.stages) && n > 0 && 0 <= i && i <= n
 //@   loop 1: invariant advFrame(p) && fresh(occ)
 //@   loop 1: invariant goff[stage + 1] == (stage + 1 - occBase) * p.width && goff[stage] == (stage - occBase) * p.width && 0 <= goff[stage] && goff[stage + 1] == goff[stage] + p.width && goff[stage + 1] + p.width <= len(occ)
 //@   loop 1: invariant recsOK(p) && stagesIn(p, minStage, maxStage + 1)
-//@   loop 1: invariant distinctOK(p)
+//@   loop 1: invariant distinctFlat(p)
+//@   loop 1: invariant rowSep(p, goff, stage)
 //@   loop 1: invariant occSound(p, occ, goff)
-//@   loop 1: invariant advGuard(p) ==> occOwned(p, occ, goff, ownAt(i, gown0, gown1))
 //@   loop 1: invariant recKeep(p)
 //@   loop 1: invariant forall j in 0..len(p.stages) :: old(p.stages)[j].Stage < stage || (old(p.stages)[j].Stage == stage && j >= i) || old(p.stages)[j].Stage > maxStage ==> recSame(p, j)
 //@   loop 1: invariant forall j in 0..len(p.stages) :: (stage < old(p.stages)[j].Stage && old(p.stages)[j].Stage <= maxStage) || (old(p.stages)[j].Stage == stage && j < i) ==> recDone(p, j)
